@@ -83,10 +83,6 @@ func newPkg(pkg *packages.Package, u *Universe) Package {
 		signatures: make(map[*types.Signature]ast.Node),
 	}
 
-	for pkgPath := range pkg.Imports {
-		p.imports[pkgPath] = u.Package(pkgPath)
-	}
-
 	fileLineFor := func(pos token.Pos, deltaLine int) fileLine {
 		position := p.Package.Fset.Position(pos)
 		return fileLine{position.Filename, position.Line + deltaLine}
@@ -289,6 +285,12 @@ func (p *pkgInfo) Module() *packages.Module {
 }
 
 func (p *pkgInfo) Imports() map[string]Package {
+	// resolved on demand: when the package is constructed its dependencies are not registered yet
+	for pkgPath := range p.Package.Imports {
+		if p.imports[pkgPath] == nil {
+			p.imports[pkgPath] = p.u.Package(pkgPath)
+		}
+	}
 	return p.imports
 }
 
